@@ -593,6 +593,7 @@ class loader( reader ):
         self._n			= 0			#   and line we're currently parsing
         self._ts		= None			# Last received timestamp; if None, open will use advancing historical time
         self._strict		= False			#   True after opening a new file, goes False when _ts increases
+        self._fresh		= False			#   True after opening a new file, 'til its first record is received
         self.values		= {}			# Historical values at historical timestamp
         if values:
             # Some default values are provided; initialize our values to them, with a 0.0 timestamp
@@ -716,6 +717,7 @@ class loader( reader ):
                     self._i	= self.open( target=self._ts, after=after, lookahead=self.lookahead,
                                              strict=self._strict, encoding=encoding )
                     self._strict= True # remains until we see increasing timestamps
+                    self._fresh	= True # remains until we see the file's first record
 
                 assert self.state in (self.INITIAL, self.SWITCHING, self.STREAMING, self.EXHAUSTED, self.AWAITING)
                 # We have an open generator; process records.  We also still know if it was our
@@ -779,9 +781,10 @@ class loader( reader ):
                         # same file next time!  Therefore, we have to see ts > self._ts and
                         # self.state isn't INITIAL/SWITCHING (eg. we've already seen records from
                         # the file )
-                        if self.state not in (self.INITIAL, self.SWITCHING) and (
+                        if not self._fresh and (
                                 self._ts is None or ts > self._ts ):
                             release	= True # ... but only if the record turns out valid (advances self._ts)
+                    self._fresh		= False # (may have been AWAITING the file's first record; state can't tell)
 
                     if self.state in (self.INITIAL, self.SWITCHING, self.AWAITING):
                         self.state	= self.STREAMING
